@@ -10,7 +10,6 @@ RULE = ('lap scripts: Lapper::new over random interval multisets with start<=sto
         'endpoint equals a stored endpoint and the set is non-empty; distinct by case text')
 UNIQUE_NOTE = 'count_find / find_filter: the model output is the unique value allowed by the property, so a mismatch is a violation'
 EXHAUSTIVE = {}
-CROSSCHECK = True      # thorough tier: a sample is re-evaluated inside Coq against the extracted runner
 
 
 def script(rng, mode, ivs, nops):
